@@ -757,6 +757,15 @@ func init() {
 				map[string]int{"caps": x.caps, "prefill": x.prefill, "p1": x.p1, "p2": x.p2, "pops": x.pops, "canary": 0},
 				func(b *Bounds) { b.Unwind = 40; b.Preempt = pre; b.Race = true; b.MaxPaths = 3000000; b.MaxWallS = 1800 }))
 		}
+		// the consumer follows a jump marker while the queue is completely full and a producer is offering
+		fjc := []int{0}
+		if tier == "thorough" {
+			fjc = []int{0, 1, 4}
+		}
+		for _, cp := range fjc {
+			js = append(js, mk(sprintf("c16.full_at_jump.caps%d.pre%d", cp, pre), queuePkg, "ZZ_C16_FullAtJump", map[string]int{"caps": cp, "maxpop": 7},
+				func(b *Bounds) { b.Unwind = 80; b.Preempt = pre; b.Race = true; b.MaxPaths = 3000000; b.MaxWallS = 1800 }))
+		}
 		c = mk("c16.par.canary", queuePkg, "ZZ_C16_Par", map[string]int{"caps": 0, "prefill": 0, "p1": 1, "p2": 1, "pops": 1, "canary": 1},
 			func(b *Bounds) { b.Unwind = 40; b.Preempt = 1; b.Race = true })
 		c.Canary = "c16.par.canary"
